@@ -94,18 +94,18 @@ def build_hank(
             logger.info("... uncertainty calculations...")
             Nb = N // nb  # number of samples per segment
             T = np.zeros(((p + 1) * q * l * r, nb))  # Square root of SIGMA_H
-            Hvec0 = Hank.reshape(-1, 1)  # vectorialised hankel
             Hcov = np.zeros(((p + 1) * l, q * r))  # Averaged version of the Hankel matrix
 
             for k in range(nb):
                 # Section 3.2 and 5.1 of DoMe13
                 Yp_k = Yf[:, (k * Nb) : ((k + 1) * Nb)]
                 Ym_k = Yp[:, (k * Nb) : ((k + 1) * Nb)]
-                Hcov_k = np.dot(Yp_k, Ym_k.T) / Nb
+                # block estimate with the same normalisation as Hank (Yf, Yp carry 1/sqrt(N))
+                Hcov_k = np.dot(Yp_k, Ym_k.T) / Nb * N
 
                 Hcov += Hcov_k / nb
-                Hcov_vec_k = Hcov_k.reshape(-1, 1)
-                T[:, k] = (Hcov_vec_k - Hvec0).flatten() / np.sqrt(nb * (nb - 1))
+                # column-stacked vectorisation, as expected by the propagation in SSI_fast
+                T[:, k] = (Hcov_k - Hank).flatten(order="F") / np.sqrt(nb * (nb - 1))
 
             logger.debug("... Hankel and SIGMA_H Done!")
             return Hank, T
